@@ -2,6 +2,7 @@ import AL.Model.Facts
 import AL.Model.Sema
 import AL.Gen.Availability
 import AL.Gen.Builtins
+import AL.Lemmas.SemaAvail
 /-
   C12 — context and special-function availability follows GitHub's table exactly.
   Table facts are re-checked against the regenerated tables on every run; the checker-level statement
@@ -80,5 +81,165 @@ def special_not_allowed_sound_statement : Prop :=
   ∀ (Γ : Env) (e : E) (c : String),
     (⟨"special-func-not-allowed", [c]⟩ : SemaErr) ∈ (check Γ e).errs →
       c ∈ visitedCalls Γ e ∧ Γ.specialFuncs.contains (Γ.lower c) = true ∧ Γ.availSpecial.contains (Γ.lower c) = false
+
+/-! ### proofs of (e) and (f) -/
+
+mutual
+theorem src_ctx_iff (Γ : Env) (n : String) : ∀ e : E,
+    (⟨"context-not-allowed", [n]⟩ : SemaErr) ∈ srcErrs Γ "context-not-allowed" e ↔
+      (n ∈ visitedVars Γ e ∧ (Ty.lookup n Γ.vars).isSome = true ∧ Γ.availCtx.contains (Γ.lower n) = false)
+  | .null | .bool | .num | .str _ => by simp [srcErrs, visitedVars]
+  | .var m => by
+    rw [srcErrs, mem_var_errs_ctx]; simp [visitedVars]
+  | .objDeref r _ => by rw [srcErrs, visitedVars]; exact src_ctx_iff Γ n r
+  | .arrDeref r => by rw [srcErrs, visitedVars]; exact src_ctx_iff Γ n r
+  | .not e => by rw [srcErrs, visitedVars]; exact src_ctx_iff Γ n e
+  | .index r i => by
+    rw [srcErrs, visitedVars, List.mem_append, List.mem_append, src_ctx_iff Γ n r, src_ctx_iff Γ n i]
+    constructor
+    · rintro (⟨h, h'⟩ | ⟨h, h'⟩)
+      · exact ⟨Or.inl h, h'⟩
+      · exact ⟨Or.inr h, h'⟩
+    · rintro ⟨h | h, h'⟩
+      · exact Or.inl ⟨h, h'⟩
+      · exact Or.inr ⟨h, h'⟩
+  | .cmp _ l r => by
+    rw [srcErrs, visitedVars, List.mem_append, List.mem_append, src_ctx_iff Γ n l, src_ctx_iff Γ n r]
+    constructor
+    · rintro (⟨h, h'⟩ | ⟨h, h'⟩)
+      · exact ⟨Or.inl h, h'⟩
+      · exact ⟨Or.inr h, h'⟩
+    · rintro ⟨h | h, h'⟩
+      · exact Or.inl ⟨h, h'⟩
+      · exact Or.inr ⟨h, h'⟩
+  | .logical _ l r => by
+    rw [srcErrs, visitedVars, List.mem_append, List.mem_append, src_ctx_iff Γ n l, src_ctx_iff Γ n r]
+    constructor
+    · rintro (⟨h, h'⟩ | ⟨h, h'⟩)
+      · exact ⟨Or.inl h, h'⟩
+      · exact ⟨Or.inr h, h'⟩
+    · rintro ⟨h | h, h'⟩
+      · exact Or.inl ⟨h, h'⟩
+      · exact Or.inr ⟨h, h'⟩
+  | .call c args => by
+    rw [srcErrs, visitedVars]
+    cases lookupFuncs (Γ.lower c) Γ.funcs with
+    | none => simp
+    | some sigs =>
+      simp only [keep_resolveCall_ctx, List.append_nil, Option.isSome_some, if_true]
+      exact src_ctx_list_iff Γ n args
+theorem src_ctx_list_iff (Γ : Env) (n : String) : ∀ es : List E,
+    (⟨"context-not-allowed", [n]⟩ : SemaErr) ∈ srcErrsList Γ "context-not-allowed" es ↔
+      (n ∈ visitedVars.visitedVarsList Γ es ∧ (Ty.lookup n Γ.vars).isSome = true ∧
+        Γ.availCtx.contains (Γ.lower n) = false)
+  | [] => by simp [srcErrsList, visitedVars.visitedVarsList]
+  | e :: es => by
+    rw [srcErrsList, visitedVars.visitedVarsList, List.mem_append, List.mem_append, src_ctx_iff Γ n e,
+      src_ctx_list_iff Γ n es]
+    constructor
+    · rintro (⟨h, h'⟩ | ⟨h, h'⟩)
+      · exact ⟨Or.inl h, h'⟩
+      · exact ⟨Or.inr h, h'⟩
+    · rintro ⟨h | h, h'⟩
+      · exact Or.inl ⟨h, h'⟩
+      · exact Or.inr ⟨h, h'⟩
+end
+
+theorem not_allowed_iff : not_allowed_iff_statement := by
+  intro Γ e n
+  rw [mem_errs_iff Γ e _ (show "context-not-allowed" ∉ localCodes by decide)]
+  exact src_ctx_iff Γ n e
+
+mutual
+theorem src_special (Γ : Env) (c : String) : ∀ e : E,
+    (⟨"special-func-not-allowed", [c]⟩ : SemaErr) ∈ srcErrs Γ "special-func-not-allowed" e →
+      c ∈ visitedCalls Γ e ∧ Γ.specialFuncs.contains (Γ.lower c) = true ∧
+        Γ.availSpecial.contains (Γ.lower c) = false
+  | .null | .bool | .num | .str _ => by simp [srcErrs]
+  | .var m => by rw [srcErrs, keep_var_special]; intro h; cases h
+  | .objDeref r _ => by rw [srcErrs, visitedCalls]; exact src_special Γ c r
+  | .arrDeref r => by rw [srcErrs, visitedCalls]; exact src_special Γ c r
+  | .not e => by rw [srcErrs, visitedCalls]; exact src_special Γ c e
+  | .index r i => by
+    rw [srcErrs, visitedCalls, List.mem_append, List.mem_append]
+    rintro (h | h)
+    · exact ⟨Or.inl (src_special Γ c i h).1, (src_special Γ c i h).2⟩
+    · exact ⟨Or.inr (src_special Γ c r h).1, (src_special Γ c r h).2⟩
+  | .cmp _ l r => by
+    rw [srcErrs, visitedCalls, List.mem_append, List.mem_append]
+    rintro (h | h)
+    · exact ⟨Or.inl (src_special Γ c l h).1, (src_special Γ c l h).2⟩
+    · exact ⟨Or.inr (src_special Γ c r h).1, (src_special Γ c r h).2⟩
+  | .logical _ l r => by
+    rw [srcErrs, visitedCalls, List.mem_append, List.mem_append]
+    rintro (h | h)
+    · exact ⟨Or.inl (src_special Γ c l h).1, (src_special Γ c l h).2⟩
+    · exact ⟨Or.inr (src_special Γ c r h).1, (src_special Γ c r h).2⟩
+  | .call c' args => by
+    rw [srcErrs, visitedCalls]
+    cases lookupFuncs (Γ.lower c') Γ.funcs with
+    | none => intro h; cases h
+    | some sigs =>
+      simp only [Option.isSome_some, if_true, List.mem_append, List.mem_cons]
+      rintro (h | h)
+      · exact ⟨Or.inr (src_special_list Γ c args h).1, (src_special_list Γ c args h).2⟩
+      · obtain ⟨h1, h2⟩ := mem_keep_resolveCall_special Γ c' sigs _ _ _ h
+        simp only [err, SemaErr.mk.injEq, true_and, List.cons.injEq, and_true] at h1
+        subst h1
+        exact ⟨Or.inl rfl, h2⟩
+theorem src_special_list (Γ : Env) (c : String) : ∀ es : List E,
+    (⟨"special-func-not-allowed", [c]⟩ : SemaErr) ∈ srcErrsList Γ "special-func-not-allowed" es →
+      c ∈ visitedCalls.visitedCallsList Γ es ∧ Γ.specialFuncs.contains (Γ.lower c) = true ∧
+        Γ.availSpecial.contains (Γ.lower c) = false
+  | [] => by simp [srcErrsList]
+  | e :: es => by
+    rw [srcErrsList, visitedCalls.visitedCallsList, List.mem_append, List.mem_append]
+    rintro (h | h)
+    · exact ⟨Or.inl (src_special Γ c e h).1, (src_special Γ c e h).2⟩
+    · exact ⟨Or.inr (src_special_list Γ c es h).1, (src_special_list Γ c es h).2⟩
+end
+
+theorem special_not_allowed_sound : special_not_allowed_sound_statement := by
+  intro Γ e c h
+  rw [mem_errs_iff Γ e _ (show "special-func-not-allowed" ∉ localCodes by decide)] at h
+  exact src_special Γ c e h
+
+/-! ### concrete instances -/
+
+/-- the environment of `jobs.<job_id>.steps.run`-like key where `matrix` is available but `secrets` is
+not, and where `hashFiles` is special and unavailable; names are folded with `lowerAscii` -/
+def exΓ : Env :=
+  { vars := [("matrix", .obj [] (some .any)), ("secrets", .obj [] (some .string))],
+    funcs := AL.Gen.funcSigs, specialFuncs := AL.Gen.specialFuncs,
+    availCtx := ["matrix"], availSpecial := [], configVars := none,
+    lower := AL.Facts.lowerAscii, fromJson := fun _ => .otherErr }
+
+/-- `!(matrix.os == 'x' && contains(secrets.token, 'y'))`: `secrets` is reported although it sits inside
+a call, under `&&` (narrowing) and under `!`; `matrix` is not reported -/
+def exE : E :=
+  .not (.logical .and (.cmp .eq (.objDeref (.var "matrix") "os") (.str "x"))
+    (.call "contains" [.objDeref (.var "secrets") "token", .str "y"]))
+
+example : (⟨"context-not-allowed", ["secrets"]⟩ : SemaErr) ∈ (check exΓ exE).errs ∧
+    (⟨"context-not-allowed", ["matrix"]⟩ : SemaErr) ∉ (check exΓ exE).errs := by
+  have hv : visitedVars exΓ exE = ["matrix", "secrets"] := by decide +kernel
+  constructor
+  · exact (not_allowed_iff exΓ exE "secrets").2 ⟨by rw [hv]; decide, by decide +kernel, by decide +kernel⟩
+  · intro h
+    have := ((not_allowed_iff exΓ exE "matrix").1 h).2.2
+    revert this
+    decide +kernel
+
+/-- `hashFiles('x') == HashFiles('y')` where it is not available: a reported name is a visited callee
+that is special and unavailable -/
+example (c : String)
+    (h : (⟨"special-func-not-allowed", [c]⟩ : SemaErr) ∈
+      (check exΓ (.cmp .eq (.call "hashFiles" [.str "x"]) (.call "HashFiles" [.str "y"]))).errs) :
+    c = "hashFiles" ∨ c = "HashFiles" := by
+  have h1 := (special_not_allowed_sound exΓ _ c h).1
+  have hv : visitedCalls exΓ (.cmp .eq (.call "hashFiles" [.str "x"]) (.call "HashFiles" [.str "y"]))
+      = ["hashFiles", "HashFiles"] := by decide +kernel
+  rw [hv] at h1
+  simpa using h1
 
 end AL.C12
